@@ -107,14 +107,69 @@ pub broadcast proof fn axiom_cloned_u8(a: u8, b: u8)
     ensures #[trigger] cloned::<u8>(a, b) ==> a == b,
 { admit(); }
 
+/// R19: `std::cmp::max` on usize as a local function
+pub fn max_usize(a: usize, b: usize) -> (r: usize)
+    ensures r == (if a >= b { a } else { b }),
+{ if a >= b { a } else { b } }
+
+/// R20: `a.starts_with(&b)` on Vec<u32> as a call with the obvious contract
+#[verifier::external_body]
+pub fn vec_starts_with(a: &Vec<TokenId>, b: &Vec<TokenId>) -> (r: bool)
+    ensures r == (b@.len() <= a@.len() && a@.take(b@.len() as int) == b@),
+{ unimplemented!() }
+
+/// R23: `v.drain(..n);` (result dropped at once) removes the first n elements
+#[verifier::external_body]
+pub fn vec_drain_front(v: &mut Vec<TokenId>, n: usize)
+    requires n <= old(v)@.len(),
+    ensures final(v)@ == old(v)@.skip(n as int),
+{ unimplemented!() }
+
 /// R16: `decoded[1..] == self.llm_bytes` (slice == Vec through PartialEq) as a call with the obvious contract
 #[verifier::external_body]
 pub fn slice_eq_vec(a: &[u8], b: &Vec<u8>) -> (r: bool)
     ensures r == (a@ == b@),
 { unimplemented!() }
 
+/// the bytes the grammar forces in the state `tp` (decided by the lexer hint / Earley state, not under contract here)
+pub uninterp spec fn spec_ff_bytes(tp: TokenParser) -> Seq<u8>;
+
+pub broadcast proof fn axiom_cloned_u32(a: u32, b: u32)
+    ensures #[trigger] cloned::<u32>(a, b) ==> a == b,
+{ admit(); }
+
+pub proof fn lemma_dec_single(t: u32)
+    ensures dec(seq![t]) == tok_bytes(t),
+{
+    let s = seq![t];
+    assert(s.len() == 1 && s.last() == t);
+    assert(s.drop_last() =~= Seq::<u32>::empty());
+    assert(dec(s.drop_last()) =~= Seq::<u8>::empty());
+    assert(dec(s) == dec(s.drop_last()) + tok_bytes(s.last()));
+    assert(dec(s) =~= tok_bytes(t));
+}
+
+/// dec over a three-way split
+pub proof fn lemma_dec_split3(t: Seq<u32>, x: int, m: int)
+    requires 0 <= x <= m <= t.len(),
+    ensures dec(t) == dec(t.take(x)) + dec(t.subrange(x, m)) + dec(t.skip(m)),
+{
+    assert(t =~= t.take(m) + t.skip(m));
+    lemma_dec_concat(t.take(m), t.skip(m));
+    assert(t.take(m) =~= t.take(x) + t.subrange(x, m));
+    lemma_dec_concat(t.take(x), t.subrange(x, m));
+}
+
 impl TokenParser {
     pub fn tok_trie(&self) -> (r: &ShimTrie) { self.token_env.tok_trie() }
+    /// Parser-side (TokenParser::compute_ff_bytes_to -> Parser::force_bytes): appends the bytes the grammar forces at this point;
+    /// which bytes those are is the Earley side's business (uninterpreted `spec_ff_bytes`)
+    #[verifier::external_body]
+    pub fn compute_ff_bytes_to(&mut self, trg: &mut Vec<u8>)
+        ensures final(trg)@ == old(trg)@ + spec_ff_bytes(*old(self)),
+            final(self).llm_tokens == old(self).llm_tokens, final(self).token_env == old(self).token_env,
+            final(self).llm_bytes == old(self).llm_bytes, final(self).grm_prefix == old(self).grm_prefix,
+    { unimplemented!() }
     /// opaque: `!no_forcing && tokenize_is_canonical()`
     #[verifier::external_body]
     pub fn can_force_bytes(&self) -> (r: bool) { unimplemented!() }
@@ -125,7 +180,10 @@ impl TokenParser {
 //@ spec
     requires num_fixed <= tokens@.len(),
     ensures
-        // whole tokens are removed from the end, and chop_bytes is exactly what they spell
+        // whole tokens are removed from the end (never one of the first num_fixed), and chop_bytes is exactly what they spell
+        num_fixed <= res.0@.len() <= tokens@.len(),
+        res.0@ == tokens@.take(res.0@.len() as int),
+        res.1 == dec(tokens@.skip(res.0@.len() as int)).len(),
         res.1 <= dec(tokens@).len(),
         dec(res.0@) == dec(tokens@).take(dec(tokens@).len() - res.1),
         final(self).parser.bytes == old(self).parser.bytes, final(self).parser.forced == old(self).parser.forced,
@@ -146,7 +204,96 @@ impl TokenParser {
         lemma_dec_concat(t0.take(n - k), t0.subrange(n - k, n));
         assert(dec(t0) == dec(t0.take(n - k)) + dec(t0.subrange(n - k, n)));
         assert(dec(t0.take(n - k)) =~= dec(t0).take(dec(t0).len() - chop_bytes));
+        assert(t0.skip(n - k) =~= t0.subrange(n - k, n));
     }
+//@ end
+
+
+//@@ fn parser/src/tokenparser.rs TokenParser::ff_tokens
+//@ ret res
+//@ rewrite R19 :: std::cmp::max(existing_tokens.len(), num_fixed) ==> max_usize(existing_tokens.len(), num_fixed)
+//@ rewrite R20 :: tokens.starts_with(&existing_tokens) ==> vec_starts_with(&tokens, &existing_tokens)
+//@ rewrite R20 :: grm_tokens.starts_with(&existing_tokens) ==> vec_starts_with(&grm_tokens, &existing_tokens)
+//@ rewrite R22 :: (tokens, num_fixed) = self .token_env .tokenize_bytes_marker(&forced_bytes[num_existing_bytes..]); ==> let verif_t = self.token_env.tokenize_bytes_marker(&forced_bytes[num_existing_bytes..]); tokens = verif_t.0; num_fixed = verif_t.1;
+//@ rewrite R23 :: grm_tokens.drain(..existing_tokens.len()); ==> vec_drain_front(&mut grm_tokens, existing_tokens.len());
+//@ rewrite R21 :: let t0 = Instant::now(); ==> 
+//@ rewrite R21 :: self.parser.perf_counters().tokenize_ff.record(t0.elapsed()); ==> 
+//@ spec
+    ensures
+        // the fast-forward tokens spell a prefix of the bytes the grammar forces, and what is left of those bytes is the mandatory
+        // prefix of the next token: nothing lost, nothing invented
+        dec(res.0@) + res.1@ == spec_ff_bytes(*old(self)),
+        final(self).llm_tokens == old(self).llm_tokens,
+//@ body_start
+    broadcast use axiom_cloned_u8, axiom_cloned_u32;
+    let ghost ff = spec_ff_bytes(*self);
+//@ before let num_existing_bytes
+    let ghost e0 = forced_bytes@;
+    proof {
+        if self.llm_tokens@.len() > 0 {
+            let n = self.llm_tokens@.len() as int;
+            assert(existing_tokens@.len() == 1);
+            assert(self.llm_tokens@.subrange(n - 1, n)[0] == self.llm_tokens@[n - 1]);
+            assert(existing_tokens@[0] == self.llm_tokens@[n - 1]);
+            assert(existing_tokens@ =~= seq![self.llm_tokens@[n - 1]]);
+            lemma_dec_single(self.llm_tokens@[n - 1]);
+        }
+        assert(e0 == dec(existing_tokens@));
+    }
+//@ after self.compute_ff_bytes_to(&mut forced_bytes);
+    proof { assert(forced_bytes@ == e0 + ff); }
+//@ after let verif_t = self.token_env.tokenize_bytes_marker(&forced_bytes[num_existing_bytes..]);
+    proof {
+        assert(forced_bytes@.skip(num_existing_bytes as int) =~= ff);
+        assert(dec(verif_t.0@) == ff);
+    }
+//@ before let (mut grm_tokens, chop_bytes)
+    let ghost toks0 = tokens@;
+    let ghost ex = existing_tokens@;
+    proof {
+        assert(dec(toks0) == dec(ex) + ff);
+        assert(toks0.take(ex.len() as int) == ex);
+        assert(ex.len() <= num_fixed <= toks0.len());
+    }
+//@ before assert!(vec_starts_with(&grm_tokens, &existing_tokens));
+    let ghost m = grm_tokens@.len() as int;
+    proof {
+        assert(grm_tokens@.take(ex.len() as int) =~= toks0.take(ex.len() as int));
+    }
+//@ before if !grm_tokens.is_empty()
+    proof {
+        let x = ex.len() as int;
+        lemma_dec_split3(toks0, x, m);
+        let mid = dec(toks0.subrange(x, m));
+        let tail = dec(toks0.skip(m));
+        assert(grm_tokens@ =~= toks0.subrange(x, m));
+        // dec(ex) + mid + tail == dec(ex) + ff  ==>  mid + tail == ff
+        assert((dec(ex) + mid + tail).skip(dec(ex).len() as int) =~= mid + tail);
+        assert((dec(ex) + ff).skip(dec(ex).len() as int) =~= ff);
+        assert(mid + tail == ff);
+        let fb = forced_bytes@;
+        assert(fb == e0 + ff);
+        assert(chop_bytes == tail.len());
+        let sub = fb.subrange(fb.len() - chop_bytes, fb.len() as int);
+        assert(token_prefix@.len() == sub.len());
+        assert forall|i: int| 0 <= i < sub.len() implies token_prefix@[i] == sub[i] by { assert(cloned::<u8>(sub[i], token_prefix@[i])); }
+        assert(ff.len() == mid.len() + tail.len());
+        assert forall|i: int| 0 <= i < sub.len() implies sub[i] == tail[i] by {
+            assert(sub[i] == fb[fb.len() - chop_bytes + i]);
+            assert(fb[fb.len() - chop_bytes + i] == ff[mid.len() + i]);
+            assert((mid + tail)[mid.len() + i] == tail[i]);
+        }
+        assert(token_prefix@ =~= tail);
+    }
+//@ then_end if forced_bytes.len() > num_existing_bytes
+    proof {
+        let sub = forced_bytes@.subrange(num_existing_bytes as int, forced_bytes@.len() as int);
+        assert(sub =~= ff);
+        assert(token_prefix@.len() == sub.len());
+        assert forall|i: int| 0 <= i < sub.len() implies token_prefix@[i] == sub[i] by { assert(cloned::<u8>(sub[i], token_prefix@[i])); }
+        assert(token_prefix@ =~= ff);
+    }
+//@ body_end
 //@ end
 
 //@@ fn parser/src/tokenparser.rs TokenParser::process_prompt
